@@ -276,4 +276,944 @@ Section Traversal.
     - discriminate.
     - eapply loop_ok; eauto.
   Qed.
+
+  (** ** Termination: the fuel [S (length st)] is never exhausted *)
+
+  Definition unvisited (vis : list key) : nat :=
+    length (filter (fun kf : key * file => negb (mem_key (fst kf) vis)) st).
+
+  Lemma filter_length_mono {A} (p q : A -> bool) l :
+    (forall x, In x l -> p x = true -> q x = true) -> length (filter p l) <= length (filter q l).
+  Proof.
+    induction l as [|a l IH]; intros H; cbn; [lia|].
+    assert (IH' : length (filter p l) <= length (filter q l)) by (apply IH; intros; apply H; cbn; auto).
+    destruct (p a) eqn:Hp.
+    - rewrite (H a (or_introl eq_refl) Hp). cbn; lia.
+    - destruct (q a); cbn; lia.
+  Qed.
+
+  Lemma filter_length_strict {A} (p q : A -> bool) l x :
+    (forall x, In x l -> p x = true -> q x = true) -> In x l -> p x = false -> q x = true ->
+    length (filter p l) < length (filter q l).
+  Proof.
+    induction l as [|a l IH]; intros H Hin Hp Hq; cbn; [contradiction|].
+    assert (Hmono : length (filter p l) <= length (filter q l))
+      by (apply filter_length_mono; intros; apply H; cbn; auto).
+    destruct Hin as [->|Hin].
+    - rewrite Hp, Hq. cbn; lia.
+    - assert (IH' : length (filter p l) < length (filter q l)) by (apply IH; auto; intros; apply H; cbn; auto).
+      destruct (p a) eqn:Hpa.
+      + rewrite (H a (or_introl eq_refl) Hpa). cbn; lia.
+      + destruct (q a); cbn; lia.
+  Qed.
+
+  Lemma lookup_In : forall (s0 : store) k f, lookup s0 k = Some f -> In (k, f) s0.
+  Proof.
+    induction s0 as [|[k' f'] r IH]; intros k f H; cbn in H; [discriminate|].
+    destruct (key_eqb_spec k' k) as [->|Hn].
+    - inversion H; subst. left; reflexivity.
+    - right; apply IH; exact H.
+  Qed.
+
+  Lemma unvisited_mono vis vis' : incl vis vis' -> unvisited vis' <= unvisited vis.
+  Proof.
+    intros Hincl. unfold unvisited. apply filter_length_mono. intros [k f] _ H. cbn [fst] in *.
+    apply negb_true_iff in H. apply negb_true_iff. apply mem_key_false. apply mem_key_false in H.
+    intros Hin; apply H; apply Hincl; exact Hin.
+  Qed.
+
+  Lemma unvisited_add p vis f :
+    lookup st p = Some f -> ~ In p vis -> unvisited (p :: vis) < unvisited vis.
+  Proof.
+    intros Hl Hnotin. unfold unvisited. apply (filter_length_strict _ _ st (p, f)).
+    - intros [k f0] _ H. cbn [fst] in *. apply negb_true_iff in H. apply negb_true_iff.
+      apply mem_key_false. apply mem_key_false in H. intros Hin; apply H; right; exact Hin.
+    - apply lookup_In; exact Hl.
+    - cbn [fst]. apply negb_false_iff. apply mem_key_In. left; reflexivity.
+    - cbn [fst]. apply negb_true_iff. apply mem_key_false. exact Hnotin.
+  Qed.
+
+  Lemma select_not_oof f i : select f i <> inl OutOfFuel.
+  Proof. pose proof (select_cases f i) as H. intros E; rewrite E in H; exact H. Qed.
+
+  Lemma ok_post_incl doc imps vis acc vis' acc' : ok_post doc imps vis acc vis' acc' -> incl vis vis'.
+  Proof. intros (tr & _ & Hvis & _) k Hk. apply Hvis; left; exact Hk. Qed.
+
+  Lemma loop_fuel recur doc n :
+    recur_ok recur ->
+    (forall doc imps vis acc, unvisited vis < n -> recur doc imps vis acc <> inl OutOfFuel) ->
+    forall imps vis acc, unvisited vis < S n -> import_loop recur st doc imps vis acc <> inl OutOfFuel.
+  Proof.
+    intros Hok Hrec; induction imps as [|i rest IH]; intros vis acc Hlt; cbn [import_loop].
+    - discriminate.
+    - destruct (mem_key (import_key doc i) vis) eqn:Hmem; [apply IH; exact Hlt|].
+      destruct (lookup st (import_key doc i)) as [f|] eqn:Hl; [|discriminate].
+      assert (Hadd : unvisited (import_key doc i :: vis) < unvisited vis)
+        by (eapply unvisited_add; [exact Hl | apply mem_key_false; exact Hmem]).
+      destruct (recur (import_key doc i) (fimports f) (import_key doc i :: vis) acc)
+        as [e|[v1 a1]] eqn:Hr.
+      + intros E; inversion E; subst e. revert Hr. apply Hrec. lia.
+      + destruct (select f i) as [e|sel] eqn:Hs.
+        * intros E; inversion E; subst e. exact (select_not_oof _ _ Hs).
+        * apply IH. apply Hok in Hr. apply ok_post_incl in Hr.
+          assert (Hm : unvisited v1 <= unvisited vis)
+            by (apply unvisited_mono; intros k Hk; apply Hr; right; exact Hk).
+          lia.
+  Qed.
+
+  Lemma rec_fuel n : forall doc imps vis acc,
+    unvisited vis < n -> imports_rec n st doc imps vis acc <> inl OutOfFuel.
+  Proof.
+    induction n as [|n IH]; intros doc imps vis acc Hlt; [lia|].
+    cbn [imports_rec]. apply (loop_fuel (imports_rec n st) doc n); [apply rec_ok | exact IH | exact Hlt].
+  Qed.
+
+  Lemma unvisited_nil : unvisited [] = length st.
+  Proof.
+    unfold unvisited. induction st as [|a l IH]; cbn; [reflexivity|]. f_equal; exact IH.
+  Qed.
+
+  Lemma imports_terminate root_path root : resolve_imports st root_path root <> inl OutOfFuel.
+  Proof.
+    unfold resolve_imports.
+    destruct (imports_rec (S (length st)) st root_path (fimports root) [] (fdefs root)) as [e|[v a]] eqn:H.
+    - intros E; inversion E; subst e. revert H. apply rec_fuel. rewrite unvisited_nil. lia.
+    - discriminate.
+  Qed.
+
+  (** ** Errors are never spurious *)
+
+  Notation err_post := (Justified st).
+
+  Lemma err_post_mono doc imps imps' e : incl imps imps' -> err_post doc imps e -> err_post doc imps' e.
+  Proof.
+    intros Hincl; destruct e as [file p|n file p| |]; cbn; auto.
+    - intros (k & i & Hr & H). exists k, i. split; [eapply RL_mono; eauto | exact H].
+    - intros (k & i & f & Hr & H). exists k, i, f. split; [eapply RL_mono; eauto | exact H].
+    - intros (k & i & f & ts & Hr & H). exists k, i, f, ts. split; [eapply RL_mono; eauto | exact H].
+  Qed.
+
+  Lemma err_post_trans doc imps k0 i0 f0 e :
+    RLs doc imps k0 i0 -> lookup st k0 = Some f0 -> err_post k0 (fimports f0) e -> err_post doc imps e.
+  Proof.
+    intros Hr0 Hl0; destruct e as [file p|n file p| |]; cbn; auto.
+    - intros (k & i & Hr & H). exists k, i. split; [eapply RL_trans; eauto | exact H].
+    - intros (k & i & f & Hr & H). exists k, i, f. split; [eapply RL_trans; eauto | exact H].
+    - intros (k & i & f & ts & Hr & H). exists k, i, f, ts. split; [eapply RL_trans; eauto | exact H].
+  Qed.
+
+  Definition recur_err (recur : key -> list import -> list key -> list def -> ierr + rstate) : Prop :=
+    forall doc imps vis acc e, recur doc imps vis acc = inl e -> err_post doc imps e.
+
+  Lemma loop_err recur doc :
+    recur_err recur ->
+    forall imps vis acc e, import_loop recur st doc imps vis acc = inl e -> err_post doc imps e.
+  Proof.
+    intros Hrec; induction imps as [|i rest IH]; intros vis acc e H; cbn [import_loop] in H.
+    - discriminate.
+    - assert (Hroot : RLs doc (i :: rest) (import_key doc i) i) by (apply RL_root; left; reflexivity).
+      destruct (mem_key (import_key doc i) vis) eqn:Hmem.
+      + apply IH in H. eapply err_post_mono; [|exact H]. intros x Hx; right; exact Hx.
+      + destruct (lookup st (import_key doc i)) as [f|] eqn:Hl.
+        * destruct (recur (import_key doc i) (fimports f) (import_key doc i :: vis) acc)
+            as [e1|[v1 a1]] eqn:Hr.
+          -- inversion H; subst e1. apply Hrec in Hr. eapply err_post_trans; eauto.
+          -- destruct (select f i) as [e1|sel] eqn:Hs.
+             ++ inversion H; subst e1. pose proof (select_cases f i) as Hc. rewrite Hs in Hc.
+                destruct e as [file p|n file p| |]; cbn; try contradiction.
+                ** destruct Hc as (ts & Ht & Hin & Hfile).
+                   exists (import_key doc i), i, f. auto.
+                ** destruct Hc as (ts & Ht & Hm & Hlen).
+                   exists (import_key doc i), i, f, ts. auto.
+             ++ apply IH in H. eapply err_post_mono; [|exact H]. intros x Hx; right; exact Hx.
+        * inversion H; subst e. cbn. exists (import_key doc i), i. auto.
+  Qed.
+
+  Lemma rec_err fuel : recur_err (imports_rec fuel st).
+  Proof.
+    induction fuel as [|n IH]; intros doc imps vis acc e H; cbn [imports_rec] in H.
+    - inversion H; subst e. exact I.
+    - eapply loop_err; eauto.
+  Qed.
+
+  Lemma imports_error_sound root_path root e :
+    resolve_imports st root_path root = inl e -> err_post root_path (fimports root) e.
+  Proof.
+    unfold resolve_imports.
+    destruct (imports_rec (S (length st)) st root_path (fimports root) [] (fdefs root)) as [e'|[v a]] eqn:H.
+    - intros E; inversion E; subst e'. eapply rec_err; eauto.
+    - discriminate.
+  Qed.
+
+  (** ** Exactness under the (Prop-level) guards *)
+
+  Section Exact.
+    Variable root_path : key.
+    Variable root : file.
+    Notation RLr := (RL st root_path (fimports root)).
+
+    (** all lines that point at one file ask for the same fragments *)
+    Definition AgreeP : Prop :=
+      forall k i1 i2 f, RLr k i1 -> RLr k i2 -> lookup st k = Some f ->
+                        forall d, In d (wanted f i1) <-> In d (wanted f i2).
+    (** nothing a line asks for is one of the root's own definitions *)
+    Definition RootSepP : Prop :=
+      forall k i f, RLr k i -> lookup st k = Some f -> forall d, In d (wanted f i) -> ~ In d (fdefs root).
+    (** definitions are distinguishable *)
+    Definition DistinctP : Prop :=
+      NoDup (fdefs root)
+      /\ (forall k i f, RLr k i -> lookup st k = Some f -> NoDup (fdefs f))
+      /\ (forall k1 i1 f1 k2 i2 f2 d, RLr k1 i1 -> RLr k2 i2 -> k1 <> k2 ->
+            lookup st k1 = Some f1 -> lookup st k2 = Some f2 ->
+            In d (fdefs f1) -> In d (fdefs f2) -> False).
+    (** lines that point at one file are all satisfiable or all not *)
+    Definition AgreeBadP : Prop :=
+      forall k i1 i2 f, RLr k i1 -> RLr k i2 -> lookup st k = Some f ->
+                        (missing_names f i1 = [] <-> missing_names f i2 = []).
+
+    Lemma wanted_incl f i : incl (wanted f i) (fdefs f).
+    Proof.
+      unfold wanted; destruct (itargets i); intros d Hd; apply filter_In in Hd; tauto.
+    Qed.
+
+    Lemma wanted_NoDup f i : NoDup (fdefs f) -> NoDup (wanted f i).
+    Proof. unfold wanted; destruct (itargets i); apply NoDup_filter. Qed.
+
+    Lemma in_tr_defs tr d : In d (tr_defs tr) <-> exists k i f, In (k, i, f) tr /\ In d (wanted f i).
+    Proof.
+      unfold tr_defs. rewrite in_flat_map. split.
+      - intros ([[k i] f] & Hin & Hd). exists k, i, f. auto.
+      - intros (k & i & f & Hin & Hd). exists (k, i, f). auto.
+    Qed.
+
+    Lemma in_keys tr k : In k (map ekey tr) <-> exists i f, In (k, i, f) tr.
+    Proof.
+      rewrite in_map_iff. split.
+      - intros ([[k0 i] f] & He & Hin). cbn in He. subst k0. eauto.
+      - intros (i & f & Hin). exists (k, i, f). auto.
+    Qed.
+
+    Lemma tr_defs_NoDup tr :
+      NoDup (map ekey tr) ->
+      (forall e, In e tr -> NoDup (edefs e)) ->
+      (forall e1 e2 d, In e1 tr -> In e2 tr -> ekey e1 <> ekey e2 -> In d (edefs e1) -> In d (edefs e2) -> False) ->
+      NoDup (tr_defs tr).
+    Proof.
+      induction tr as [|e r IH]; intros Hk Hnd Hdisj; cbn; [constructor|].
+      inversion Hk as [|? ? Hnotin Hk']; subst.
+      apply NoDup_app_intro.
+      - apply Hnd; left; reflexivity.
+      - apply IH; auto.
+        + intros e' He'; apply Hnd; right; exact He'.
+        + intros e1 e2 d H1 H2; apply Hdisj; right; assumption.
+      - intros d Hd Hin. apply in_flat_map in Hin. destruct Hin as (e' & He' & Hd').
+        apply (Hdisj e e' d); auto.
+        + left; reflexivity.
+        + right; exact He'.
+        + intros E. apply Hnotin. rewrite E. apply in_map; exact He'.
+    Qed.
+
+    (** what a successful top-level run gives *)
+    Lemma top_ok ds :
+      resolve_imports st root_path root = inr ds ->
+      exists tr : list entry,
+        ds = fdefs root ++ tr_defs tr
+        /\ NoDup (map ekey tr)
+        /\ (forall k i f, In (k, i, f) tr ->
+              lookup st k = Some f /\ select f i = inr (wanted f i) /\ RLr k i)
+        /\ (forall k i, RLr k i -> exists i0 f, In (k, i0, f) tr).
+    Proof.
+      unfold resolve_imports.
+      destruct (imports_rec (S (length st)) st root_path (fimports root) [] (fdefs root)) as [e|[v a]] eqn:H;
+        [discriminate|].
+      intros E; inversion E; subst a. apply rec_ok in H.
+      destruct H as (tr & Hacc & Hvis & Hnd & _ & Hent & Hclosed & Himps).
+      exists tr. split; [exact Hacc|]. split; [exact Hnd|]. split; [exact Hent|].
+      assert (Hv : forall k, In k v -> exists i0 f, In (k, i0, f) tr).
+      { intros k Hk. apply Hvis in Hk. destruct Hk as [[]|Hk]. apply in_keys; exact Hk. }
+      intros k i Hr. apply Hv. induction Hr as [i Hi | k i f j _ IH Hl Hj].
+      - apply Himps; exact Hi.
+      - destruct (Hv k IH) as (i0 & f0 & Hin).
+        destruct (Hent k i0 f0 Hin) as (Hl0 & _ & _).
+        assert (f0 = f) by congruence. subst f0.
+        eapply Hclosed; eauto.
+    Qed.
+
+    Lemma imports_exact_P ds :
+      AgreeP -> RootSepP -> DistinctP ->
+      resolve_imports st root_path root = inr ds ->
+      (forall d, In d ds <-> Closure st root_path root d) /\ NoDup ds.
+    Proof.
+      intros Hagree Hsep (Hnd_root & Hnd_file & Hdisj) H.
+      destruct (top_ok ds H) as (tr & Hds & Hnd & Hent & Hall). subst ds. split.
+      - intros d. unfold Closure, Requested. rewrite in_app_iff, in_tr_defs. split.
+        + intros [Hd|(k & i & f & Hin & Hd)]; [left; exact Hd|].
+          destruct (Hent k i f Hin) as (Hl & _ & Hr). right. exists k, i, f. auto.
+        + intros [Hd|(k & i & f & Hr & Hl & Hd)]; [left; exact Hd|]. right.
+          destruct (Hall k i Hr) as (i0 & f0 & Hin).
+          destruct (Hent k i0 f0 Hin) as (Hl0 & _ & Hr0).
+          assert (f0 = f) by congruence. subst f0.
+          exists k, i0, f. split; [exact Hin|]. apply (Hagree k i i0 f Hr Hr0 Hl). exact Hd.
+      - apply NoDup_app_intro; [exact Hnd_root| |].
+        + apply tr_defs_NoDup; [exact Hnd| |].
+          * intros [[k i] f] Hin. destruct (Hent k i f Hin) as (Hl & _ & Hr).
+            unfold edefs; cbn [fst snd]. apply wanted_NoDup. eapply Hnd_file; eauto.
+          * intros [[k1 i1] f1] [[k2 i2] f2] d H1 H2 Hne Hd1 Hd2.
+            unfold ekey, edefs in Hne, Hd1, Hd2; cbn [fst snd] in Hne, Hd1, Hd2.
+            destruct (Hent k1 i1 f1 H1) as (Hl1 & _ & Hr1).
+            destruct (Hent k2 i2 f2 H2) as (Hl2 & _ & Hr2).
+            apply (Hdisj k1 i1 f1 k2 i2 f2 d Hr1 Hr2 Hne Hl1 Hl2).
+            -- eapply wanted_incl; exact Hd1.
+            -- eapply wanted_incl; exact Hd2.
+        + intros d Hd Hin. apply in_tr_defs in Hin. destruct Hin as (k & i & f & Hin & Hw).
+          destruct (Hent k i f Hin) as (Hl & _ & Hr).
+          exact (Hsep k i f Hr Hl d Hw Hd).
+    Qed.
+
+    (** *** Errors are complete, and there is no panic, under the name guards *)
+
+    Definition FragNamesP : Prop :=
+      forall k i f, RLr k i -> lookup st k = Some f -> NoDup (frag_names f).
+    Definition TargetNamesP : Prop := forall k i, RLr k i -> NoDup (target_names i).
+
+    Definition str_dec : forall a b : str, {a = b} + {a <> b} := list_eq_dec N.eq_dec.
+
+    Lemma NoDup_map_filter_sub {A B} (g : A -> B) (p q : A -> bool) l :
+      (forall x, p x = true -> q x = true) -> NoDup (map g (filter q l)) -> NoDup (map g (filter p l)).
+    Proof.
+      intros Hpq; induction l as [|a l IH]; cbn; intros H; [constructor|].
+      destruct (p a) eqn:Hp.
+      - rewrite (Hpq a Hp) in H. cbn in *. inversion H as [|? ? Hnotin Hnd]; subst. constructor; [|auto].
+        intros Hin. apply Hnotin. apply in_map_iff in Hin. destruct Hin as (x & Hx & Hin).
+        apply in_map_iff. exists x. split; [exact Hx|]. apply filter_In in Hin. apply filter_In.
+        destruct Hin as [Hin Hpx]. split; [exact Hin | apply Hpq; exact Hpx].
+      - destruct (q a); [inversion H; subst; auto | auto].
+    Qed.
+
+    Lemma missing_nil_iff f i ts :
+      itargets i = Specific ts ->
+      (missing_names f i = [] <-> forall t, In t ts -> existsb (is_frag_named (fst t)) (fdefs f) = true).
+    Proof.
+      intros Ht. unfold missing_names. rewrite Ht. split.
+      - intros H t Hin. destruct (existsb (is_frag_named (fst t)) (fdefs f)) eqn:E; [reflexivity|].
+        assert (Hin' : In t (filter (fun t => negb (existsb (is_frag_named (fst t)) (fdefs f))) ts))
+          by (apply filter_In; split; [exact Hin | rewrite E; reflexivity]).
+        rewrite H in Hin'. contradiction.
+      - intros H. destruct (filter _ ts) as [|t r] eqn:E; [reflexivity|].
+        assert (Hin : In t (filter (fun t => negb (existsb (is_frag_named (fst t)) (fdefs f))) ts))
+          by (rewrite E; left; reflexivity).
+        apply filter_In in Hin. destruct Hin as [Hin Hb]. rewrite (H t Hin) in Hb. discriminate.
+    Qed.
+
+    Lemma select_ok_no_missing f i sel :
+      NoDup (frag_names f) -> select f i = inr sel -> missing_names f i = [].
+    Proof.
+      intros Hnd Hs. pose proof (select_cases f i) as Hc. rewrite Hs in Hc. destruct Hc as [_ Hlen].
+      destruct (itargets i) as [|ts] eqn:Ht; [unfold missing_names; rewrite Ht; reflexivity|].
+      apply (missing_nil_iff f i ts Ht). intros t0 Hin0.
+      destruct (existsb (is_frag_named (fst t0)) (fdefs f)) eqn:E0; [reflexivity|exfalso].
+      assert (Hw : wanted f i = filter (fun d => existsb (fun t => is_frag_named (fst t) d) ts) (fdefs f))
+        by (unfold wanted; rewrite Ht; reflexivity).
+      assert (Hnd_sel : NoDup (map def_name (wanted f i))).
+      { rewrite Hw. apply (NoDup_map_filter_sub def_name _ def_is_frag); [|exact Hnd].
+        intros d Hd. apply existsb_exists in Hd. destruct Hd as (t & _ & Hd).
+        apply is_frag_named_spec in Hd. tauto. }
+      assert (Hincl : incl (map def_name (wanted f i)) (remove str_dec (fst t0) (map fst ts))).
+      { intros n Hn. apply in_map_iff in Hn. destruct Hn as (d & <- & Hd).
+        rewrite Hw in Hd. apply filter_In in Hd. destruct Hd as [Hd He].
+        apply existsb_exists in He. destruct He as (t & Ht_in & Hnamed).
+        pose proof Hnamed as Hnamed'. apply is_frag_named_spec in Hnamed'. destruct Hnamed' as [_ Hname].
+        apply in_in_remove.
+        - intros Heq.
+          assert (Hex : existsb (is_frag_named (fst t0)) (fdefs f) = true).
+          { apply existsb_exists. exists d. split; [exact Hd|]. rewrite <- Heq, Hname. exact Hnamed. }
+          congruence.
+        - rewrite Hname. apply in_map; exact Ht_in. }
+      pose proof (NoDup_incl_length Hnd_sel Hincl) as Hle.
+      assert (Hlt : length (remove str_dec (fst t0) (map fst ts)) < length (map fst ts))
+        by (apply remove_length_lt; apply in_map; exact Hin0).
+      rewrite !map_length in *. lia.
+    Qed.
+
+    Lemma no_missing_len f i ts :
+      itargets i = Specific ts -> missing_names f i = [] -> NoDup (map fst ts) ->
+      length ts <= length (wanted f i).
+    Proof.
+      intros Ht Hm Hnd. rewrite <- (map_length fst ts), <- (map_length def_name (wanted f i)).
+      apply NoDup_incl_length; [exact Hnd|].
+      intros n Hn. apply in_map_iff in Hn. destruct Hn as (t & <- & Hin).
+      pose proof (proj1 (missing_nil_iff f i ts Ht) Hm t Hin) as He.
+      apply existsb_exists in He. destruct He as (d & Hd & Hnamed).
+      apply in_map_iff. exists d. split; [apply is_frag_named_spec in Hnamed; tauto|].
+      unfold wanted. rewrite Ht. apply filter_In. split; [exact Hd|].
+      apply existsb_exists. exists t. auto.
+    Qed.
+
+    Lemma imports_error_complete_P :
+      AgreeBadP -> FragNamesP -> BadLine st root_path (fimports root) ->
+      forall ds, resolve_imports st root_path root <> inr ds.
+    Proof.
+      intros Hagree Hfn (k & i & Hr & Hbad) ds H.
+      destruct (top_ok ds H) as (tr & _ & _ & Hent & Hall).
+      destruct (Hall k i Hr) as (i0 & f & Hin).
+      destruct (Hent k i0 f Hin) as (Hl & Hs & Hr0).
+      rewrite Hl in Hbad. apply Hbad.
+      apply (Hagree k i i0 f Hr Hr0 Hl).
+      eapply select_ok_no_missing; [eapply Hfn; eauto | exact Hs].
+    Qed.
+
+    Lemma imports_no_panic_P :
+      TargetNamesP -> resolve_imports st root_path root <> inl PanicMissingTarget.
+    Proof.
+      intros Htn H. apply imports_error_sound in H. cbn in H.
+      destruct H as (k & i & f & ts & Hr & Hl & Ht & Hm & Hlen).
+      pose proof (Htn k i Hr) as Hnd. unfold target_names in Hnd. rewrite Ht in Hnd.
+      pose proof (no_missing_len f i ts Ht Hm Hnd). lia.
+    Qed.
+
+    (** *** The computable guards imply the Prop-level ones *)
+
+    Lemma NoDup_app_l {A} (l1 l2 : list A) : NoDup (l1 ++ l2) -> NoDup l1.
+    Proof.
+      induction l1 as [|a l1 IH]; cbn; intros H; [constructor|].
+      inversion H as [|? ? Hn Hd]; subst. constructor; [|auto].
+      intros Hin; apply Hn; apply in_or_app; left; exact Hin.
+    Qed.
+    Lemma NoDup_app_r {A} (l1 l2 : list A) : NoDup (l1 ++ l2) -> NoDup l2.
+    Proof. induction l1 as [|a l1 IH]; cbn; intros H; [exact H|]. inversion H; auto. Qed.
+    Lemma NoDup_app_disjoint {A} (l1 l2 : list A) x : NoDup (l1 ++ l2) -> In x l1 -> In x l2 -> False.
+    Proof.
+      induction l1 as [|a l1 IH]; cbn; intros H H1 H2; [contradiction|].
+      inversion H as [|? ? Hn Hd]; subst. destruct H1 as [->|H1].
+      - apply Hn; apply in_or_app; right; exact H2.
+      - exact (IH Hd H1 H2).
+    Qed.
+
+    Lemma flat_map_NoDup_elem {A B} (F : A -> list B) l a : NoDup (flat_map F l) -> In a l -> NoDup (F a).
+    Proof.
+      induction l as [|c r IH]; cbn; intros H Hin; [contradiction|]. destruct Hin as [->|Hin].
+      - eapply NoDup_app_l; exact H.
+      - apply IH; [eapply NoDup_app_r; exact H | exact Hin].
+    Qed.
+
+    Lemma flat_map_NoDup_disj {A B} (F : A -> list B) l a b x :
+      NoDup (flat_map F l) -> In a l -> In b l -> a <> b -> In x (F a) -> In x (F b) -> False.
+    Proof.
+      induction l as [|c r IH]; cbn; intros H Ha Hb Hne Hxa Hxb; [contradiction|].
+      destruct Ha as [->|Ha], Hb as [->|Hb].
+      - congruence.
+      - eapply (NoDup_app_disjoint _ _ x H); [exact Hxa|]. apply in_flat_map. exists b; auto.
+      - eapply (NoDup_app_disjoint _ _ x H); [exact Hxb|]. apply in_flat_map. exists a; auto.
+      - apply IH; auto. eapply NoDup_app_r; exact H.
+    Qed.
+
+    Section Guards.
+      Variable ks : list key.
+      Hypothesis Hclosed : closed_b st root_path root ks = true.
+
+      Lemma RL_in_lines k i : RLr k i -> In (k, i) (all_lines st root_path root ks) /\ In k ks.
+      Proof.
+        assert (Hc : forall l, In l (all_lines st root_path root ks) -> In (fst l) ks).
+        { unfold closed_b in Hclosed. rewrite forallb_forall in Hclosed.
+          intros l Hl. apply mem_key_In. apply Hclosed; exact Hl. }
+        intros Hr. induction Hr as [i Hi | k i f j _ IH Hl Hj].
+        - assert (Hin : In (import_key root_path i, i) (all_lines st root_path root ks)).
+          { unfold all_lines. apply in_or_app; left. unfold lines_of.
+            apply in_map_iff. exists i; auto. }
+          split; [exact Hin | exact (Hc _ Hin)].
+        - destruct IH as [_ Hk].
+          assert (Hin : In (import_key k j, j) (all_lines st root_path root ks)).
+          { unfold all_lines. apply in_or_app; right. apply in_flat_map. exists k. split; [exact Hk|].
+            unfold file_lines. rewrite Hl. unfold lines_of. apply in_map_iff. exists j; auto. }
+          split; [exact Hin | exact (Hc _ Hin)].
+      Qed.
+
+      Lemma agree_b_P :
+        agree_b st (all_lines st root_path root ks) = true -> AgreeP /\ AgreeBadP.
+      Proof.
+        intros H. unfold agree_b in H. rewrite forallb_forall in H.
+        assert (Hpair : forall k i1 i2 f, RLr k i1 -> RLr k i2 -> lookup st k = Some f ->
+                  same_defs (wanted f i1) (wanted f i2) = true /\
+                  Bool.eqb (is_nil (missing_names f i1)) (is_nil (missing_names f i2)) = true).
+        { intros k i1 i2 f H1 H2 Hl.
+          destruct (RL_in_lines k i1 H1) as [Hin1 _]. destruct (RL_in_lines k i2 H2) as [Hin2 _].
+          pose proof (H _ Hin1) as Ha. rewrite forallb_forall in Ha. pose proof (Ha _ Hin2) as Hb.
+          unfold lines_agree in Hb. cbn [fst snd] in Hb. rewrite key_eqb_refl, Hl in Hb.
+          apply andb_true_iff in Hb. exact Hb. }
+        split.
+        - intros k i1 i2 f H1 H2 Hl. destruct (Hpair k i1 i2 f H1 H2 Hl) as [Hs _].
+          apply same_defs_spec; exact Hs.
+        - intros k i1 i2 f H1 H2 Hl. destruct (Hpair k i1 i2 f H1 H2 Hl) as [_ Hb].
+          apply Bool.eqb_prop in Hb.
+          destruct (missing_names f i1), (missing_names f i2); cbn in Hb; split; intros; congruence.
+      Qed.
+
+      Lemma rootsep_b_P : rootsep_b st root (all_lines st root_path root ks) = true -> RootSepP.
+      Proof.
+        intros H k i f Hr Hl d Hd Hin. unfold rootsep_b in H. rewrite forallb_forall in H.
+        destruct (RL_in_lines k i Hr) as [Hin1 _]. pose proof (H _ Hin1) as Ha.
+        cbn [fst snd] in Ha. rewrite Hl in Ha. rewrite forallb_forall in Ha.
+        pose proof (Ha d Hd) as Hb. apply negb_true_iff in Hb.
+        apply mem_def_In in Hin. congruence.
+      Qed.
+
+      Lemma distinct_b_P : distinct_b st root ks = true -> DistinctP.
+      Proof.
+        unfold distinct_b. rewrite !andb_true_iff. intros [[Hk Hr] Hd].
+        apply nodup_keys_NoDup in Hk. apply nodup_defs_NoDup in Hr. apply nodup_defs_NoDup in Hd.
+        split; [exact Hr|]. split.
+        - intros k i f Hrl Hl. destruct (RL_in_lines k i Hrl) as [_ Hin].
+          pose proof (flat_map_NoDup_elem (defs_at st) ks k Hd Hin) as H.
+          unfold defs_at in H. rewrite Hl in H. exact H.
+        - intros k1 i1 f1 k2 i2 f2 d H1 H2 Hne Hl1 Hl2 Hd1 Hd2.
+          destruct (RL_in_lines k1 i1 H1) as [_ Hin1]. destruct (RL_in_lines k2 i2 H2) as [_ Hin2].
+          apply (flat_map_NoDup_disj (defs_at st) ks k1 k2 d Hd Hin1 Hin2 Hne);
+            unfold defs_at; [rewrite Hl1 | rewrite Hl2]; assumption.
+      Qed.
+
+      Lemma names_guard_b_P :
+        names_guard_b st ks (all_lines st root_path root ks) = true -> FragNamesP /\ TargetNamesP.
+      Proof.
+        unfold names_guard_b. rewrite andb_true_iff, !forallb_forall. intros [Hf Ht]. split.
+        - intros k i f Hr Hl. destruct (RL_in_lines k i Hr) as [_ Hin].
+          pose proof (Hf k Hin) as H. rewrite Hl in H. apply nodup_strs_NoDup; exact H.
+        - intros k i Hr. destruct (RL_in_lines k i Hr) as [Hin _].
+          pose proof (Ht _ Hin) as H. cbn [snd] in H. apply nodup_strs_NoDup; exact H.
+      Qed.
+    End Guards.
+  End Exact.
 End Traversal.
+
+(** * The theorems with computable guards *)
+
+Theorem imports_exact st root_path root ks ds :
+  exact_guard_b st root_path root ks = true ->
+  resolve_imports st root_path root = inr ds ->
+  (forall d, In d ds <-> Closure st root_path root d) /\ NoDup ds.
+Proof.
+  unfold exact_guard_b. rewrite !andb_true_iff. intros [[[Hc Hd] Ha] Hr] H.
+  apply (imports_exact_P st root_path root ds); auto.
+  - apply (agree_b_P st root_path root ks Hc Ha).
+  - apply (rootsep_b_P st root_path root ks Hc Hr).
+  - apply (distinct_b_P st root_path root ks Hc Hd).
+Qed.
+
+Lemma justified_bad st doc imps e :
+  positioned e = true -> Justified st doc imps e -> BadLine st doc imps.
+Proof.
+  destruct e as [file p|n file p| |]; cbn; try discriminate; intros _.
+  - intros (k & i & Hr & Hl & _). exists k, i. split; [exact Hr|]. rewrite Hl. exact I.
+  - intros (k & i & f & Hr & Hl & Hin & _). exists k, i. split; [exact Hr|]. rewrite Hl.
+    intros E; rewrite E in Hin; contradiction.
+Qed.
+
+Theorem imports_error_iff st root_path root ks :
+  error_guard_b st root_path root ks = true ->
+  names_guard_b st ks (all_lines st root_path root ks) = true ->
+  (BadLine st root_path (fimports root) <->
+   exists e, resolve_imports st root_path root = inl e /\ positioned e = true).
+Proof.
+  unfold error_guard_b. rewrite andb_true_iff. intros [Hc Ha] Hn.
+  destruct (agree_b_P st root_path root ks Hc Ha) as [_ Hbad].
+  destruct (names_guard_b_P st root_path root ks Hc Hn) as [Hfn Htn].
+  split.
+  - intros Hb. destruct (resolve_imports st root_path root) as [e|ds] eqn:H.
+    + exists e. split; [reflexivity|]. destruct e; try reflexivity.
+      * exfalso. exact (imports_no_panic_P st root_path root Htn H).
+      * exfalso. exact (imports_terminate st root_path root H).
+    + exfalso. exact (imports_error_complete_P st root_path root Hbad Hfn Hb ds H).
+  - intros (e & H & Hp). eapply justified_bad; [exact Hp|]. apply imports_error_sound; exact H.
+Qed.
+
+Theorem imports_no_panic st root_path root ks :
+  closed_b st root_path root ks = true ->
+  names_guard_b st ks (all_lines st root_path root ks) = true ->
+  resolve_imports st root_path root <> inl PanicMissingTarget.
+Proof.
+  intros Hc Hn. destruct (names_guard_b_P st root_path root ks Hc Hn) as [_ Htn].
+  apply imports_no_panic_P; exact Htn.
+Qed.
+
+(** * The order of import lines *)
+
+Lemma file_perm_sym f f' : file_perm f f' -> file_perm f' f.
+Proof. intros [H1 H2]; split; [symmetry; exact H1 | apply Permutation_sym; exact H2]. Qed.
+
+Lemma store_perm_sym st st' : store_perm st st' -> store_perm st' st.
+Proof.
+  induction 1 as [|a b l l' [Hk Hf] _ IH]; constructor; auto.
+  split; [symmetry; exact Hk | apply file_perm_sym; exact Hf].
+Qed.
+
+Lemma lookup_perm st st' k :
+  store_perm st st' ->
+  match lookup st k with
+  | Some f => exists f', lookup st' k = Some f' /\ file_perm f f'
+  | None => lookup st' k = None
+  end.
+Proof.
+  induction 1 as [|[k1 f1] [k2 f2] l l' [Hk Hf] _ IH]; cbn; [reflexivity|].
+  cbn in Hk, Hf. subst k2. destruct (key_eqb k1 k); [exists f2; auto | exact IH].
+Qed.
+
+Lemma wanted_ext f f' i : fdefs f = fdefs f' -> wanted f i = wanted f' i.
+Proof. intros H; unfold wanted; rewrite H; reflexivity. Qed.
+Lemma missing_ext f f' i : fdefs f = fdefs f' -> missing_names f i = missing_names f' i.
+Proof. intros H; unfold missing_names; rewrite H; reflexivity. Qed.
+
+Lemma RL_perm st st' doc imps imps' k i :
+  store_perm st st' -> Permutation imps imps' -> RL st doc imps k i -> RL st' doc imps' k i.
+Proof.
+  intros Hs Hp H; induction H as [i Hi | k i f j _ IH Hl Hj].
+  - apply RL_root. eapply Permutation_in; eauto.
+  - pose proof (lookup_perm st st' k Hs) as Hlp. rewrite Hl in Hlp. destruct Hlp as (f' & Hl' & _ & Hpf).
+    eapply RL_step; [exact IH | exact Hl' | eapply Permutation_in; eauto].
+Qed.
+
+Section Perm.
+  Variables st st' : store.
+  Variable root_path : key.
+  Variables root root' : file.
+  Hypothesis Hst : store_perm st st'.
+  Hypothesis Hroot : file_perm root root'.
+
+  Let Hst' := store_perm_sym _ _ Hst.
+  Let Hp := proj2 Hroot.
+  Let Hp' := Permutation_sym (proj2 Hroot).
+
+  (** a line reachable in the permuted store, read back in the original one *)
+  Lemma back k i f' :
+    RL st' root_path (fimports root') k i -> lookup st' k = Some f' ->
+    RL st root_path (fimports root) k i /\ exists f, lookup st k = Some f /\ fdefs f = fdefs f'.
+  Proof.
+    intros Hr Hl. split; [eapply RL_perm; eauto|].
+    pose proof (lookup_perm st' st k Hst') as H. rewrite Hl in H. destruct H as (f & Hl0 & Hd & _).
+    exists f. split; [exact Hl0 | symmetry; exact Hd].
+  Qed.
+
+  Lemma Closure_perm d : Closure st root_path root d -> Closure st' root_path root' d.
+  Proof.
+    intros [Hd|(k & i & f & Hr & Hl & Hd)].
+    - left. rewrite <- (proj1 Hroot). exact Hd.
+    - right. pose proof (lookup_perm st st' k Hst) as H. rewrite Hl in H.
+      destruct H as (f' & Hl' & Hdf & _). exists k, i, f'.
+      split; [eapply RL_perm; eauto|]. split; [exact Hl'|].
+      rewrite <- (wanted_ext f f' i Hdf). exact Hd.
+  Qed.
+
+  Lemma BadLine_perm : BadLine st root_path (fimports root) -> BadLine st' root_path (fimports root').
+  Proof.
+    intros (k & i & Hr & Hb). exists k, i. split; [eapply RL_perm; eauto|].
+    pose proof (lookup_perm st st' k Hst) as H. destruct (lookup st k) as [f|].
+    - destruct H as (f' & Hl' & Hdf & _). rewrite Hl'. rewrite <- (missing_ext f f' i Hdf). exact Hb.
+    - rewrite H. exact I.
+  Qed.
+
+  Lemma AgreeP_perm : AgreeP st root_path root -> AgreeP st' root_path root'.
+  Proof.
+    intros H k i1 i2 f' H1 H2 Hl.
+    destruct (back k i1 f' H1 Hl) as (H1' & f & Hl0 & Hd). destruct (back k i2 f' H2 Hl) as (H2' & _).
+    rewrite <- (wanted_ext f f' i1 Hd), <- (wanted_ext f f' i2 Hd). exact (H k i1 i2 f H1' H2' Hl0).
+  Qed.
+
+  Lemma AgreeBadP_perm : AgreeBadP st root_path root -> AgreeBadP st' root_path root'.
+  Proof.
+    intros H k i1 i2 f' H1 H2 Hl.
+    destruct (back k i1 f' H1 Hl) as (H1' & f & Hl0 & Hd). destruct (back k i2 f' H2 Hl) as (H2' & _).
+    rewrite <- (missing_ext f f' i1 Hd), <- (missing_ext f f' i2 Hd). exact (H k i1 i2 f H1' H2' Hl0).
+  Qed.
+
+  Lemma RootSepP_perm : RootSepP st root_path root -> RootSepP st' root_path root'.
+  Proof.
+    intros H k i f' Hr Hl d Hd. destruct (back k i f' Hr Hl) as (Hr' & f & Hl0 & Hdf).
+    rewrite <- (proj1 Hroot). rewrite <- (wanted_ext f f' i Hdf) in Hd. exact (H k i f Hr' Hl0 d Hd).
+  Qed.
+
+  Lemma DistinctP_perm : DistinctP st root_path root -> DistinctP st' root_path root'.
+  Proof.
+    intros (Hr & Hf & Hd). split; [rewrite <- (proj1 Hroot); exact Hr|]. split.
+    - intros k i f' Hrl Hl. destruct (back k i f' Hrl Hl) as (Hr' & f & Hl0 & Hdf).
+      rewrite <- Hdf. exact (Hf k i f Hr' Hl0).
+    - intros k1 i1 f1' k2 i2 f2' d H1 H2 Hne Hl1 Hl2 Hd1 Hd2.
+      destruct (back k1 i1 f1' H1 Hl1) as (H1' & f1 & Hl10 & Hdf1).
+      destruct (back k2 i2 f2' H2 Hl2) as (H2' & f2 & Hl20 & Hdf2).
+      rewrite <- Hdf1 in Hd1. rewrite <- Hdf2 in Hd2.
+      exact (Hd k1 i1 f1 k2 i2 f2 d H1' H2' Hne Hl10 Hl20 Hd1 Hd2).
+  Qed.
+
+  Lemma FragNamesP_perm : FragNamesP st root_path root -> FragNamesP st' root_path root'.
+  Proof.
+    intros H k i f' Hr Hl. destruct (back k i f' Hr Hl) as (Hr' & f & Hl0 & Hdf).
+    unfold frag_names. rewrite <- Hdf. exact (H k i f Hr' Hl0).
+  Qed.
+
+  Lemma TargetNamesP_perm : TargetNamesP st root_path root -> TargetNamesP st' root_path root'.
+  Proof. intros H k i Hr. apply (H k i). eapply RL_perm; eauto. Qed.
+End Perm.
+
+Theorem import_order_irrelevant st st' root_path root root' ks ds :
+  store_perm st st' -> file_perm root root' ->
+  exact_guard_b st root_path root ks = true ->
+  names_guard_b st ks (all_lines st root_path root ks) = true ->
+  resolve_imports st root_path root = inr ds ->
+  exists ds', resolve_imports st' root_path root' = inr ds' /\ (forall d, In d ds <-> In d ds') /\ NoDup ds'.
+Proof.
+  intros Hst Hroot Hg Hn H.
+  pose proof Hg as Hg0. unfold exact_guard_b in Hg0. rewrite !andb_true_iff in Hg0.
+  destruct Hg0 as [[[Hc Hd] Ha] Hr].
+  destruct (agree_b_P st root_path root ks Hc Ha) as [HA HAB].
+  pose proof (rootsep_b_P st root_path root ks Hc Hr) as HR.
+  pose proof (distinct_b_P st root_path root ks Hc Hd) as HD.
+  destruct (names_guard_b_P st root_path root ks Hc Hn) as [HF HT].
+  destruct (imports_exact st root_path root ks ds Hg H) as [Hset _].
+  destruct (resolve_imports st' root_path root') as [e|ds'] eqn:H'.
+  - exfalso. destruct (positioned e) eqn:Hpos.
+    + apply imports_error_sound in H'. apply (justified_bad _ _ _ _ Hpos) in H'.
+      apply (BadLine_perm st' st root_path root' root (store_perm_sym _ _ Hst) (file_perm_sym _ _ Hroot)) in H'.
+      exact (imports_error_complete_P st root_path root HAB HF H' ds H).
+    + destruct e; try discriminate.
+      * exact (imports_no_panic_P st' root_path root'
+                 (TargetNamesP_perm st st' root_path root root' Hst Hroot HT) H').
+      * exact (imports_terminate st' root_path root' H').
+  - exists ds'. split; [reflexivity|].
+    destruct (imports_exact_P st' root_path root' ds'
+                (AgreeP_perm st st' root_path root root' Hst Hroot HA)
+                (RootSepP_perm st st' root_path root root' Hst Hroot HR)
+                (DistinctP_perm st st' root_path root root' Hst Hroot HD) H') as [Hset' Hnd'].
+    split; [|exact Hnd'].
+    intros d. rewrite Hset, Hset'. split.
+    + apply Closure_perm; assumption.
+    + apply Closure_perm; [apply store_perm_sym; assumption | apply file_perm_sym; assumption].
+Qed.
+
+(** * The breadth-first key set only contains reachable keys
+      (so the guards evaluated on [reach_b] constrain reachable lines only) *)
+
+Section ReachSound.
+  Variable st : store.
+  Variable root_path : key.
+  Variable root : file.
+  Notation RLr := (RL st root_path (fimports root)).
+  Definition Reached (k : key) : Prop := exists i, RLr k i.
+
+  Lemma add_new_inv new : forall ks,
+    (forall k, In k new -> Reached k) -> (forall k, In k ks -> Reached k) ->
+    forall k, In k (add_new new ks) -> Reached k.
+  Proof.
+    induction new as [|n r IH]; intros ks Hn Hk k; cbn [add_new]; [apply Hk|].
+    destruct (mem_key n ks).
+    - apply IH; auto. intros k' Hk'; apply Hn; right; exact Hk'.
+    - apply IH.
+      + intros k' Hk'; apply Hn; right; exact Hk'.
+      + intros k' Hk'. apply in_app_or in Hk'. destruct Hk' as [Hk'|[<-|[]]]; [apply Hk; exact Hk'|].
+        apply Hn; left; reflexivity.
+  Qed.
+
+  Lemma file_lines_reached ks :
+    (forall k, In k ks -> Reached k) ->
+    forall k, In k (map fst (flat_map (file_lines st) ks)) -> Reached k.
+  Proof.
+    intros Hk k Hin. apply in_map_iff in Hin. destruct Hin as ([k' j] & Hfst & Hin). cbn in Hfst. subst k'.
+    apply in_flat_map in Hin. destruct Hin as (k0 & Hk0 & Hin).
+    unfold file_lines in Hin. destruct (lookup st k0) as [f|] eqn:Hl; [|contradiction].
+    unfold lines_of in Hin. apply in_map_iff in Hin. destruct Hin as (j' & Heq & Hj). inversion Heq; subst.
+    destruct (Hk k0 Hk0) as (i & Hr). exists j. eapply RL_step; eauto.
+  Qed.
+
+  Lemma reach_iter_inv n : forall ks,
+    (forall k, In k ks -> Reached k) -> forall k, In k (reach_iter st n ks) -> Reached k.
+  Proof.
+    induction n as [|n IH]; intros ks Hk; cbn [reach_iter]; [exact Hk|].
+    apply IH. apply add_new_inv; [apply file_lines_reached; exact Hk | exact Hk].
+  Qed.
+
+  Lemma reach_b_sound k : In k (reach_b st root_path root) -> Reached k.
+  Proof.
+    unfold reach_b. apply reach_iter_inv. apply add_new_inv; [|intros ? []].
+    intros k' Hin. apply in_map_iff in Hin. destruct Hin as ([k0 i] & Hfst & Hin). cbn in Hfst; subst k0.
+    unfold lines_of in Hin. apply in_map_iff in Hin. destruct Hin as (i' & Heq & Hi). inversion Heq; subst.
+    exists i. apply RL_root; exact Hi.
+  Qed.
+
+  (** every line the guards look at, when evaluated on [reach_b], is a reachable line *)
+  Lemma all_lines_reach_b_sound k i :
+    In (k, i) (all_lines st root_path root (reach_b st root_path root)) -> RLr k i.
+  Proof.
+    unfold all_lines. intros Hin. apply in_app_or in Hin. destruct Hin as [Hin|Hin].
+    - unfold lines_of in Hin. apply in_map_iff in Hin. destruct Hin as (i' & Heq & Hi). inversion Heq; subst.
+      apply RL_root; exact Hi.
+    - apply in_flat_map in Hin. destruct Hin as (k0 & Hk0 & Hin).
+      unfold file_lines in Hin. destruct (lookup st k0) as [f|] eqn:Hl; [|contradiction].
+      unfold lines_of in Hin. apply in_map_iff in Hin. destruct Hin as (j & Heq & Hj). inversion Heq; subst.
+      destruct (reach_b_sound k0 Hk0) as (i0 & Hr). eapply RL_step; eauto.
+  Qed.
+End ReachSound.
+
+(** * Witnesses: where the current code departs from the property, and non-vacuity of the guards *)
+
+Definition P0 : pos := Pos 0 0 0.
+Definition imp (path : str) (ts : targets) : import := {| ipath := path; ipos := P0; itargets := ts |}.
+Definition names (l : list str) : targets := Specific (map (fun n => (n, P0)) l).
+Definition frag (n : str) (id : N) : def := Def true n id.
+Definition kp (p : str) : key := components p.
+
+Definition k_main := kp (s "/p/main.graphql").
+Definition x_file : file := {| fdefs := [frag (s "FA") 100; frag (s "FB") 101]; fimports := [] |}.
+Definition y_file : file :=
+  {| fdefs := [frag (s "F") 200]; fimports := [imp (s "./x.graphql") (names [s "FB"])] |}.
+
+(** the diamond of the property text *)
+Definition main_diamond : file :=
+  {| fdefs := [Def false (s "Q") 0];
+     fimports := [imp (s "./y.graphql") (names [s "F"]); imp (s "./x.graphql") (names [s "FA"])] |}.
+Definition st_diamond : store :=
+  [(k_main, main_diamond); (kp (s "/p/x.graphql"), x_file); (kp (s "/p/y.graphql"), y_file)].
+
+Lemma diamond_refuted :
+  resolve_imports st_diamond k_main main_diamond
+    = inr [Def false (s "Q") 0; frag (s "FB") 101; frag (s "F") 200]
+  /\ Closure st_diamond k_main main_diamond (frag (s "FA") 100)
+  /\ exact_guard_b st_diamond k_main main_diamond (reach_b st_diamond k_main main_diamond) = false.
+Proof.
+  split; [vm_compute; reflexivity|]. split; [|vm_compute; reflexivity].
+  right. exists (kp (s "/p/x.graphql")), (imp (s "./x.graphql") (names [s "FA"])), x_file.
+  split; [|split; [vm_compute; reflexivity | vm_compute; left; reflexivity]].
+  change (kp (s "/p/x.graphql")) with (import_key k_main (imp (s "./x.graphql") (names [s "FA"]))).
+  apply RL_root. right; left; reflexivity.
+Qed.
+
+(** the same file under two spellings *)
+Definition main_respelled : file :=
+  {| fdefs := [Def false (s "Q") 0];
+     fimports := [imp (s "./x.graphql") (names [s "FA"]); imp (s "././x.graphql") (names [s "FB"])] |}.
+Definition st_respelled : store := [(k_main, main_respelled); (kp (s "/p/x.graphql"), x_file)].
+
+Lemma respelled_path_refuted :
+  resolve_imports st_respelled k_main main_respelled = inr [Def false (s "Q") 0; frag (s "FA") 100]
+  /\ Closure st_respelled k_main main_respelled (frag (s "FB") 101)
+  /\ exact_guard_b st_respelled k_main main_respelled (reach_b st_respelled k_main main_respelled) = false.
+Proof.
+  split; [vm_compute; reflexivity|]. split; [|vm_compute; reflexivity].
+  right. exists (kp (s "/p/x.graphql")), (imp (s "././x.graphql") (names [s "FB"])), x_file.
+  split; [|split; [vm_compute; reflexivity | vm_compute; left; reflexivity]].
+  change (kp (s "/p/x.graphql")) with (import_key k_main (imp (s "././x.graphql") (names [s "FB"]))).
+  apply RL_root. right; left; reflexivity.
+Qed.
+
+(** a cycle through the root *)
+Definition main_cycle : file :=
+  {| fdefs := [frag (s "R") 0; Def false (s "Q") 1]; fimports := [imp (s "./x.graphql") (names [s "FA"])] |}.
+Definition x_back : file :=
+  {| fdefs := [frag (s "FA") 100]; fimports := [imp (s "./main.graphql") (names [s "R"])] |}.
+Definition st_cycle : store := [(k_main, main_cycle); (kp (s "/p/x.graphql"), x_back)].
+
+Lemma root_cycle_refuted :
+  resolve_imports st_cycle k_main main_cycle
+    = inr [frag (s "R") 0; Def false (s "Q") 1; frag (s "R") 0; frag (s "FA") 100]
+  /\ ~ NoDup [frag (s "R") 0; Def false (s "Q") 1; frag (s "R") 0; frag (s "FA") 100]
+  /\ exact_guard_b st_cycle k_main main_cycle (reach_b st_cycle k_main main_cycle) = false.
+Proof.
+  split; [vm_compute; reflexivity|]. split; [|vm_compute; reflexivity].
+  intros H. inversion H as [|? ? Hn _]; subst. apply Hn. right; left; reflexivity.
+Qed.
+
+(** `#import FA, FA from "./x.graphql"` *)
+Definition main_dup_items : list item :=
+  [IImport P0 [TName (s "FA") P0; TName (s "FA") P0] (s "./x.graphql") P0; IDef (Def false (s "Q") 0)].
+Definition x_one : file := {| fdefs := [frag (s "FA") 100]; fimports := [] |}.
+Definition st_dup : store := [(kp (s "/p/x.graphql"), x_one)].
+
+Lemma dup_target_refuted :
+  exists root, resolve_extensions main_dup_items = inr root
+               /\ resolve_imports st_dup k_main root = inl PanicMissingTarget
+               /\ ~ BadLine st_dup k_main (fimports root).
+Proof.
+  eexists. split; [vm_compute; reflexivity|]. split; [vm_compute; reflexivity|].
+  intros (k & i & Hr & Hb). cbn [fimports] in Hr.
+  assert (Hki : k = kp (s "/p/x.graphql") /\ i = imp (s "./x.graphql") (names [s "FA"; s "FA"])).
+  { induction Hr as [i Hi | k i f j _ IH Hl Hj].
+    - destruct Hi as [<-|[]]. split; vm_compute; reflexivity.
+    - destruct IH as [-> ->]. vm_compute in Hl. inversion Hl; subst f. destruct Hj. }
+  destruct Hki as [-> ->]. vm_compute in Hb. congruence.
+Qed.
+
+(** the second line to an already visited file is not checked *)
+Definition main_skipped : file :=
+  {| fdefs := [Def false (s "Q") 0];
+     fimports := [imp (s "./y.graphql") (names [s "F"]); imp (s "./x.graphql") (names [s "Nope"])] |}.
+Definition st_skipped : store :=
+  [(k_main, main_skipped); (kp (s "/p/x.graphql"), x_file); (kp (s "/p/y.graphql"), y_file)].
+
+Lemma skipped_error_refuted :
+  (exists ds, resolve_imports st_skipped k_main main_skipped = inr ds)
+  /\ BadLine st_skipped k_main (fimports main_skipped).
+Proof.
+  split; [eexists; vm_compute; reflexivity|].
+  exists (kp (s "/p/x.graphql")), (imp (s "./x.graphql") (names [s "Nope"])). split.
+  - change (kp (s "/p/x.graphql")) with (import_key k_main (imp (s "./x.graphql") (names [s "Nope"]))).
+    apply RL_root. right; left; reflexivity.
+  - vm_compute. discriminate.
+Qed.
+
+(** counting hides a missing fragment when the target defines another one twice *)
+Definition main_masks : file :=
+  {| fdefs := [Def false (s "Q") 0]; fimports := [imp (s "./x.graphql") (names [s "FA"; s "FB"])] |}.
+Definition x_twice : file := {| fdefs := [frag (s "FA") 100; frag (s "FA") 101]; fimports := [] |}.
+Definition st_masks : store := [(k_main, main_masks); (kp (s "/p/x.graphql"), x_twice)].
+
+Lemma dup_fragment_masks_refuted :
+  (exists ds, resolve_imports st_masks k_main main_masks = inr ds)
+  /\ BadLine st_masks k_main (fimports main_masks).
+Proof.
+  split; [eexists; vm_compute; reflexivity|].
+  exists (kp (s "/p/x.graphql")), (imp (s "./x.graphql") (names [s "FA"; s "FB"])). split.
+  - change (kp (s "/p/x.graphql")) with (import_key k_main (imp (s "./x.graphql") (names [s "FA"; s "FB"]))).
+    apply RL_root. left; reflexivity.
+  - vm_compute. discriminate.
+Qed.
+
+(** ** Non-vacuity: a cyclic, shared-target graph that satisfies every guard *)
+Definition main_rec : file :=
+  {| fdefs := [Def false (s "Q") 0];
+     fimports := [imp (s "./rec/frag1.graphql") (names [s "Frag1"]); imp (s "./w.graphql") Wildcard] |}.
+Definition rec1 : file :=
+  {| fdefs := [frag (s "Frag1") 100]; fimports := [imp (s "frag2.graphql") (names [s "Frag2"])] |}.
+Definition rec2 : file :=
+  {| fdefs := [frag (s "Frag2") 200; frag (s "Other") 201];
+     fimports := [imp (s "frag1.graphql") (names [s "Frag1"]); imp (s "../w.graphql") Wildcard] |}.
+Definition w_file : file := {| fdefs := [frag (s "W1") 300; frag (s "W2") 301; Def false (s "Op") 302]; fimports := [] |}.
+Definition st_rec : store :=
+  [(k_main, main_rec); (kp (s "/p/rec/frag1.graphql"), rec1); (kp (s "/p/rec/frag2.graphql"), rec2);
+   (kp (s "/p/w.graphql"), w_file)].
+
+Example guards_satisfiable :
+  let ks := reach_b st_rec k_main main_rec in
+  exact_guard_b st_rec k_main main_rec ks = true
+  /\ error_guard_b st_rec k_main main_rec ks = true
+  /\ names_guard_b st_rec ks (all_lines st_rec k_main main_rec ks) = true
+  /\ length ks = 3
+  /\ resolve_imports st_rec k_main main_rec
+     = inr [Def false (s "Q") 0; frag (s "W1") 300; frag (s "W2") 301; frag (s "Frag2") 200; frag (s "Frag1") 100].
+Proof. vm_compute. repeat split; reflexivity. Qed.
+
+(** ... and one with a due error *)
+Definition main_err : file :=
+  {| fdefs := [Def false (s "Q") 0]; fimports := [imp (s "./x.graphql") (names [s "FA"; s "Zz"])] |}.
+Definition st_err : store := [(k_main, main_err); (kp (s "/p/x.graphql"), x_file)].
+Example error_guards_satisfiable :
+  let ks := reach_b st_err k_main main_err in
+  error_guard_b st_err k_main main_err ks = true
+  /\ names_guard_b st_err ks (all_lines st_err k_main main_err ks) = true
+  /\ resolve_imports st_err k_main main_err = inl (FragmentNotFound (s "Zz") (s "./x.graphql") P0).
+Proof. vm_compute. repeat split; reflexivity. Qed.
+
+(** permuting import lines of a guarded graph: the instance of [import_order_irrelevant] *)
+Definition main_rec' : file := {| fdefs := fdefs main_rec; fimports := rev (fimports main_rec) |}.
+Definition rec2' : file := {| fdefs := fdefs rec2; fimports := rev (fimports rec2) |}.
+Definition st_rec' : store :=
+  [(k_main, main_rec'); (kp (s "/p/rec/frag1.graphql"), rec1); (kp (s "/p/rec/frag2.graphql"), rec2');
+   (kp (s "/p/w.graphql"), w_file)].
+Example order_changes_sequence_not_set :
+  resolve_imports st_rec' k_main main_rec'
+  = inr [Def false (s "Q") 0; frag (s "W1") 300; frag (s "W2") 301; frag (s "Frag1") 100; frag (s "Frag2") 200].
+Proof. vm_compute. reflexivity. Qed.
